@@ -2,10 +2,10 @@ package main
 
 import (
 	"fmt"
-	"strconv"
 	"go/ast"
 	"go/token"
 	"sort"
+	"strconv"
 	"strings"
 )
 
@@ -613,7 +613,7 @@ func extractHops() {
 
 type optEntry struct {
 	pkg, recv, fn, opt, ty string
-	guard                 *G
+	guard                  *G
 }
 
 func extractOptionFunc(pkRel string, fd *ast.FuncDecl, out *[]optEntry) {
